@@ -45,7 +45,7 @@ fn garbage(fmt: &str, rng: &mut StdRng) -> String {
         (f.statement.brackets.0, f.statement.brackets.1),
         (f.compound.brackets.0, f.compound.brackets.1),
     ];
-    match rng.gen_range(0..7) {
+    match rng.gen_range(0..10) {
         // token soup of random length
         0 | 1 => {
             let n = rng.gen_range(1..120);
@@ -100,6 +100,27 @@ fn garbage(fmt: &str, rng: &mut StdRng) -> String {
             }
             clip(s, 512)
         }
+        // a chain of nested symmetric statements inside a set (exponential if both operand orders are visited per level)
+        7 => {
+            let d = rng.gen_range(20..48);
+            let cop = *[f.statement.copula_similarity, f.statement.copula_equivalence, f.statement.copula_equivalence_concurrent].choose(rng).unwrap();
+            let mut s = String::from("a");
+            for _ in 0..d {
+                s = format!("{}{}{}b{}", f.statement.brackets.0, s, cop, f.statement.brackets.1);
+            }
+            clip(format!("{}{}{}", f.compound.brackets_set_extension.0, s, f.compound.brackets_set_extension.1), 512)
+        }
+        // names made of characters beyond the BMP: emoji, variation selectors, tag characters, mathematical letters
+        8 => {
+            let exotic = ["\u{e0100}", "\u{e0101}\u{e0100}", "\u{1f3f4}\u{e0067}\u{e0062}\u{e007f}", "\u{1fb00}", "\u{1d4b3}", "\u{1f600}", "a\u{e0100}", "\u{1faff}\u{1fb00}"];
+            let n = *exotic.choose(rng).unwrap();
+            let pre = *[f.atom.prefix_word, f.atom.prefix_variable_independent, f.atom.prefix_operator, f.atom.prefix_variable_query].choose(rng).unwrap();
+            match rng.gen_range(0..3) {
+                0 => format!("{pre}{n}"),
+                1 => format!("{}{pre}{n}{}b{}{}", f.statement.brackets.0, f.statement.copula_inheritance, f.statement.brackets.1, f.sentence.punctuation_judgement),
+                _ => format!("{}{pre}{n}{}", f.compound.brackets_set_extension.0, f.compound.brackets_set_extension.1),
+            }
+        }
         // arbitrary unicode scalar values
         _ => {
             let n = rng.gen_range(1..64);
@@ -118,6 +139,60 @@ pub fn drive(kind: &str, seed: u64, count: usize, out: &str) {
                 let s = garbage(fmt, &mut rng);
                 writeln!(w, "{}", json!({"op":"parse_any","fmt":fmt,"s":s,"drive":true})).unwrap();
             }
+        }
+        "names" => {
+            // exotic atom names the TLA+ side cannot spell (characters beyond the BMP, combining marks, rare scripts); a name is
+            // used for a format only if every character satisfies that format's own `is_valid_atom_name`
+            let pool = [
+                "\u{1f3f4}\u{e0067}\u{e0062}\u{e0065}\u{e006e}\u{e0067}\u{e007f}", "\u{1fb00}", "\u{1fb93}x", "\u{e0100}", "a\u{e0100}", "\u{1d4b3}", "\u{1d7d8}\u{1d7d9}",
+                "\u{1f600}", "\u{1f468}", "\u{1f1e8}\u{1f1f3}", "x\u{1faff}\u{1fb00}y", "\u{aa}", "\u{ba}a", "\u{1c5}", "\u{216b}", "\u{96b}", "a\u{96b}", "\u{0e51}\u{0e52}",
+                "\u{20000}", "\u{2f800}", "\u{10400}", "\u{1e900}\u{1e922}", "Straße", "ÀÉÎ", "ǆ", "\u{3b1}\u{3b2}", "\u{5d0}\u{5d1}", "\u{627}\u{628}", "na\u{ef}ve",
+                "\u{4e00}\u{4e8c}\u{4e09}", "\u{ff21}\u{ff41}", "\u{2160}\u{2161}", "\u{3007}", "\u{2460}\u{2461}", "\u{bc}\u{bd}", "x\u{2074}", "\u{1f100}",
+            ];
+            let kinds = ["Word", "VariableIndependent", "VariableQuery", "Operator"];
+            let mut n_out = 0usize;
+            'outer: for fmt in FORMATS {
+                let f = enum_format(fmt);
+                for name in pool {
+                    if !name.chars().all(|c| (f.is_valid_atom_name)(c)) {
+                        continue;
+                    }
+                    for kind in kinds {
+                        let atom = json!({"k": kind, "n": name});
+                        let b = json!({"k": "Word", "n": "b"});
+                        let terms = vec![
+                            atom.clone(),
+                            json!({"k":"Inheritance","a":atom,"b":b}), json!({"k":"Similarity","a":b,"b":atom}),
+                            json!({"k":"SetExtension","s":[atom]}), json!({"k":"Product","q":[b, atom, b]}), json!({"k":"Negation","a":atom}),
+                        ];
+                        for t in terms {
+                            for v in [json!({"kind":"term","v":t}),
+                                      json!({"kind":"sentence","v":{"t":t,"p":"Judgement","st":{"k":"Present"},"tr":["1","0.9"]}}),
+                                      json!({"kind":"task","v":{"b":["0.5"],"s":{"t":t,"p":"Question","st":{"k":"Eternal"},"tr":[]}}})] {
+                                writeln!(w, "{}", json!({"op":"rt_enum","fmt":fmt,"v":v,"exotic":name})).unwrap();
+                                writeln!(w, "{}", json!({"op":"pipe_v","fmt":fmt,"v":v,"exotic":name})).unwrap();
+                                n_out += 2;
+                            }
+                        }
+                        // the lexical counterpart (C02): prefix of the kind + the same name
+                        let prefix = match kind { "Word" => f.atom.prefix_word, "VariableIndependent" => f.atom.prefix_variable_independent,
+                                                  "VariableQuery" => f.atom.prefix_variable_query, _ => f.atom.prefix_operator };
+                        let la = json!({"k":"Atom","prefix":prefix,"name":name});
+                        let lb = json!({"k":"Atom","prefix":"","name":"b"});
+                        for lt in [la.clone(), json!({"k":"Statement","copula":f.statement.copula_inheritance,"subject":la,"predicate":lb}),
+                                   json!({"k":"Compound","connecter":f.compound.connecter_product,"terms":[lb, la]}),
+                                   json!({"k":"Set","left":f.compound.brackets_set_intension.0,"right":f.compound.brackets_set_intension.1,"terms":[la]})] {
+                            writeln!(w, "{}", json!({"op":"rt_lex","fmt":fmt,"v":{"kind":"term","v":lt},"exotic":name})).unwrap();
+                            writeln!(w, "{}", json!({"op":"rt_lex","fmt":fmt,"v":{"kind":"sentence","v":{"term":lt,"punctuation":f.sentence.punctuation_goal,"stamp":"","truth":["1"]}},"exotic":name})).unwrap();
+                            n_out += 2;
+                        }
+                        if count > 0 && n_out >= count * 3 {
+                            break 'outer;
+                        }
+                    }
+                }
+            }
+            let _ = seed;
         }
         other => {
             eprintln!("unknown drive kind {other}");
